@@ -100,7 +100,7 @@ def field_sources(view, operand, proj, at):
                             visit_op(o, p[1:], at_)
             else:
                 for o in rv["ops"]:
-                    visit_op(o, p[1:] if (p and (p[0] == "[]" or p[0].isdigit())) else p, at_)
+                    visit_op(o, p[1:] if (p and (p[0].startswith("[") or p[0].isdigit())) else p, at_)
         else:
             out.append(Source("const", b, i, None, _rv_short(rv)))
 
@@ -670,3 +670,67 @@ def sample_walk(view, env, start=0):
     def decide(b, c):
         return decided.get(b)
     return region_walk(view, decide, start=start), len(decided)
+
+
+# ---------------------------------------------------------------------------------------
+# expression shape (operator tree) of a value, for wiring rules over arithmetic helpers
+
+def expr_shape(view, operand, at, depth=8, _seen=None):
+    """Nested tuple describing how the operand is computed inside this function: ("callee", (arg shapes..)) for
+    a non-transparent call or primitive operation, "param(i).f" / "const" / "load(..)" for leaves. Several reaching
+    definitions give ("phi", shapes..). Transparent calls (clone, into, `?`, unwrap, ...) do not appear."""
+    os_ = view.origins_of_operand(operand, at=at)
+    shapes = []
+    for o in sorted(os_, key=repr):
+        if o.kind == "err":
+            continue
+        if o.kind == "call" and depth > 0:
+            c = call_of(view, o)
+            if c is not None:
+                b, t = c
+                name = mname(t).split("<")[0] if mname(t).startswith("<") is False else mname(t)
+                short = re.sub(r"^.*::", "", mname(t).rstrip(">"))
+                args = tuple(expr_shape(view, a, view.at_term(b), depth - 1) for a in t["args"])
+                shapes.append((short, args) if not o.proj else (short, args, tuple(o.proj)))
+                continue
+        if o.kind == "arith" and depth > 0 and o.b and ":bb" in str(o.b):
+            # primitive operation `_x = Op(a, b)` at a statement of this function
+            fn, bb, idx = str(o.b).rsplit(":", 2)
+            if fn == view.path:
+                st = view.blocks[int(bb[2:])]["s"][int(idx)]
+                rv = st["rv"]
+                ops = [rv[k] for k in ("a", "b") if k in rv]
+                shapes.append((str(o.a), tuple(expr_shape(view, a, (int(bb[2:]), int(idx)), depth - 1) for a in ops)))
+                continue
+        shapes.append(repr(o))
+    if not shapes:
+        return "?"
+    if len(shapes) == 1:
+        return shapes[0]
+    return ("phi",) + tuple(shapes)
+
+
+_OPS = [(re.compile(r"^(checked_|saturating_|wrapping_)?mul(WithOverflow)?$|^Mul(WithOverflow)?$"), "mul"),
+        (re.compile(r"^(checked_|saturating_|wrapping_)?add(WithOverflow)?$|^Add(WithOverflow)?$"), "add"),
+        (re.compile(r"^(checked_|wrapping_|saturating_)?sub(WithOverflow)?$|^Sub(WithOverflow)?$"), "sub"),
+        (re.compile(r"^(checked_)?div(_euclid)?$|^Div$"), "div")]
+_CONV = re.compile(r"^(to_u\d+|to_i\d+|from|into|try_from|try_into|u128|u64|new|from_u128|from_uint128)$")
+
+
+def norm_shape(sh):
+    """Normalise an expr_shape for comparison: arithmetic spelled as checked_*/operator/primitive becomes mul/add/
+    sub/div, unary conversions disappear, arguments of commutative operations are sorted."""
+    if isinstance(sh, str):
+        return sh
+    if sh and sh[0] == "phi":
+        return ("phi",) + tuple(sorted((norm_shape(x) for x in sh[1:]), key=repr))
+    name, args = sh[0], tuple(norm_shape(a) for a in sh[1])
+    if _CONV.match(name) and len(args) == 1:
+        return args[0]
+    for rx, canon in _OPS:
+        if rx.match(name):
+            name = canon
+            break
+    if name in ("mul", "add"):
+        args = tuple(sorted(args, key=repr))
+    return (name, args) if len(sh) == 2 else (name, args, sh[2])
